@@ -107,7 +107,7 @@ func tail(s []string, n int) []string {
 
 func body(w *run.Worker) {
 	ctx := context.Background()
-	w.Cases("workload", w.N(56, 2800), func(c *run.Case) {
+	w.Cases("workload", w.N(56, 1120), func(c *run.Case) {
 		r := c.Rng
 		cfg := genCfg(r)
 		s, err := asm.Build(cfg, asm.NewMedia(cfg))
